@@ -79,6 +79,12 @@ def prepare(prog):
         return len(cntc) == 1
     attempt("C", prog, q, "sim_sweep", isC, oneC,
             ["executor_results", "outstanding_pipelines", "pipeline_latencies_by_priority", "tick_number"], "None")
+    # D: the end-of-run aggregation   all_arrivals = ... ; ... ; pipelines_batch = compute_pipeline_stats(...)
+    isD = lambda s: isinstance(s, ast.Assign) and ast.unparse(s.targets[0]) == "all_arrivals"
+    inD = lambda s: isinstance(s, ast.Assign) and ast.unparse(s.targets[0]) in ("all_arrivals", "all_latencies", "pipelines_all", "pipelines_query",
+                                                                               "pipelines_interactive", "pipelines_batch")
+    attempt("D", prog, q, "sim_aggregate", isD, inD, ["pipeline_arrivals_by_priority", "pipeline_latencies_by_priority", "ticks_per_second"],
+            "(pipelines_all, pipelines_query, pipelines_interactive, pipelines_batch)")
     return out
 
 
@@ -208,3 +214,29 @@ def declare2(S: Spec):
              " for j in range(at_entry(len(pipeline_latencies_by_priority[pr])), len(pipeline_latencies_by_priority[pr]))) for pr in Priority)",
          ])},
          exists_mem_patterns=True, note="block C of run_simulator main loop")
+
+
+def declare3(S: Spec):
+    """end-of-run aggregation of run_simulator (extracted): per-priority statistics partition the totals"""
+    LAT = "pipeline_latencies_by_priority"
+    ARR = "pipeline_arrivals_by_priority"
+    S.fn(f"{MS}:sim_aggregate", owners=["C06"],
+         params={ARR: Dict(Prio, INT), LAT: Dict(Prio, List(INT)), "ticks_per_second": INT},
+         returns=Tuple(Ref("PipelineStats"), Ref("PipelineStats"), Ref("PipelineStats"), Ref("PipelineStats")),
+         locals={"all_arrivals": INT, "all_latencies": List(INT)},
+         requires=["ticks_per_second >= 1", f"{ARR} is not None and len({ARR}) == 3 and nodup(keys({ARR})) and all(pr in {ARR} for pr in Priority)",
+                   f"{LAT} is not None and len({LAT}) == 3 and nodup(keys({LAT})) and LatOK({LAT})",
+                   f"all(allocated({LAT}[pr]) for pr in Priority)"],
+         ensures=[("arrivals-per-priority-partition-the-total",
+                   f"result[0].arrival_count == {ARR}[Priority.QUERY] + {ARR}[Priority.INTERACTIVE] + {ARR}[Priority.BATCH_PIPELINE]"
+                   " and result[0].arrival_count == result[1].arrival_count + result[2].arrival_count + result[3].arrival_count"),
+                  ("completions-per-priority-partition-the-total",
+                   "result[0].completion_count == result[1].completion_count + result[2].completion_count + result[3].completion_count"),
+                  ("each-class-reports-its-own-counters",
+                   f"result[1].arrival_count == {ARR}[Priority.QUERY] and result[2].arrival_count == {ARR}[Priority.INTERACTIVE]"
+                   f" and result[3].arrival_count == {ARR}[Priority.BATCH_PIPELINE]"
+                   f" and result[1].completion_count == len({LAT}[Priority.QUERY]) and result[2].completion_count == len({LAT}[Priority.INTERACTIVE])"
+                   f" and result[3].completion_count == len({LAT}[Priority.BATCH_PIPELINE])")],
+         modifies=[], allocates=True,
+         note="extracted: from `all_arrivals = ...` to `pipelines_batch = ...` at the end of run_simulator; a sum over a dictionary "
+              "with exactly three keys is expanded term by term")
